@@ -442,4 +442,288 @@ theorem run_of_runV (g : Nat) (args : List Val) (vs : List Val) (h : runV P G X 
 
 end Values
 
+
+/-! ## Evaluation judgements with explicit fuel
+
+  `EvIn F env s env' c`: with any fuel ≥ F the statement ends in `(env', c)` (used with `c ≠ stuck`).
+  `Stuck env s`: with every fuel the statement is stuck — a Go run-time panic (index or slice out of
+  range), which the interpreter does not distinguish from running out of fuel; hence "every fuel". -/
+
+section Judgements
+variable (P : Prog) (G : Nat → Val) (X : Oracle)
+
+def EvIn (F : Nat) (env : Env) (s : Stmt) (env' : Env) (c : Ctl) : Prop :=
+  ∀ f, F ≤ f → execV P G X f env s = (env', c)
+
+def Stuck (env : Env) (s : Stmt) : Prop := ∀ f, (execV P G X f env s).2 = .stuck
+
+variable {P G X}
+
+theorem EvIn.mono {F F' : Nat} {env env' : Env} {s : Stmt} {c : Ctl} (h : EvIn P G X F env s env' c)
+    (hF : F ≤ F') : EvIn P G X F' env s env' c := fun f hf => h f (Nat.le_trans hF hf)
+
+/-- below the bound a run is either stuck or already the final result -/
+theorem EvIn.below {F : Nat} {env env' : Env} {s : Stmt} {c : Ctl} (h : EvIn P G X F env s env' c) (f : Nat) :
+    (execV P G X f env s).2 = .stuck ∨ execV P G X f env s = (env', c) := by
+  by_cases hs : (execV P G X f env s).2 = .stuck
+  · exact Or.inl hs
+  · right
+    have := execV_mono P G X env (Nat.le_max_left f F) s hs
+    rw [← this]
+    exact h _ (Nat.le_max_right f F)
+
+theorem EvIn.skip (env : Env) : EvIn P G X 1 env .skip env .norm := by
+  intro f hf; obtain ⟨f, rfl⟩ := Nat.exists_eq_add_of_le' hf; rfl
+theorem EvIn.brk (env : Env) : EvIn P G X 1 env .brk env .brk := by
+  intro f hf; obtain ⟨f, rfl⟩ := Nat.exists_eq_add_of_le' hf; rfl
+theorem EvIn.cont (env : Env) : EvIn P G X 1 env .cont env .cont := by
+  intro f hf; obtain ⟨f, rfl⟩ := Nat.exists_eq_add_of_le' hf; rfl
+theorem EvIn.panic (env : Env) : EvIn P G X 1 env .panic env .panic := by
+  intro f hf; obtain ⟨f, rfl⟩ := Nat.exists_eq_add_of_le' hf; rfl
+
+theorem EvIn.assign {env : Env} {x : Nat} {e : Expr} {v : Val} (he : evalV G env e = some v) :
+    EvIn P G X 1 env (.assign x [] e) (env.set x v) .norm := by
+  intro f hf; obtain ⟨f, rfl⟩ := Nat.exists_eq_add_of_le' hf
+  rw [execV_assign, he, pathV_nil]
+  simp [updPath]
+
+/-- assignment to a component `x[k1]…[kn] = e` -/
+theorem EvIn.assignPath {env : Env} {x : Nat} {p : List PathE} {e : Expr} {v n : Val} {ks : List Nat}
+    (he : evalV G env e = some v) (hp : pathV G env p = some ks) (hu : updPath (env x) ks v = some n) :
+    EvIn P G X 1 env (.assign x p e) (env.set x n) .norm := by
+  intro f hf; obtain ⟨f, rfl⟩ := Nat.exists_eq_add_of_le' hf
+  rw [execV_assign, he, hp]
+  simp [hu]
+
+theorem EvIn.seq {F1 F2 : Nat} {env env1 env2 : Env} {a b : Stmt} {c : Ctl}
+    (ha : EvIn P G X F1 env a env1 .norm) (hb : EvIn P G X F2 env1 b env2 c) :
+    EvIn P G X (F1 + F2 + 1) env (.seq a b) env2 c := by
+  intro f hf; obtain ⟨f, rfl⟩ := Nat.exists_eq_add_of_le' (by omega : 1 ≤ f)
+  rw [execV_seq, ha f (by omega)]
+  exact hb f (by omega)
+
+theorem EvIn.seq_stop {F1 : Nat} {env env1 : Env} {a b : Stmt} {c : Ctl}
+    (ha : EvIn P G X F1 env a env1 c) (hc : c ≠ .norm) :
+    EvIn P G X (F1 + 1) env (.seq a b) env1 c := by
+  intro f hf; obtain ⟨f, rfl⟩ := Nat.exists_eq_add_of_le' (by omega : 1 ≤ f)
+  rw [execV_seq, ha f (by omega)]
+  cases c <;> first | rfl | exact absurd rfl hc
+
+theorem EvIn.ite {F : Nat} {env env' : Env} {c : Expr} {a b : Stmt} {ctl : Ctl} {v : Val} {d : Bool}
+    (hc : evalV G env c = some v) (hd : asBool v = some d)
+    (h : EvIn P G X F env (if d then a else b) env' ctl) :
+    EvIn P G X (F + 1) env (.ite c a b) env' ctl := by
+  intro f hf; obtain ⟨f, rfl⟩ := Nat.exists_eq_add_of_le' (by omega : 1 ≤ f)
+  rw [execV_ite, hc]
+  simp only [hd]
+  exact h f (by omega)
+
+theorem EvIn.ret {env : Env} {es : List Expr} {vs : List Val} (h : evalVs G env es = some vs) :
+    EvIn P G X 1 env (.ret es) env (.ret vs) := by
+  intro f hf; obtain ⟨f, rfl⟩ := Nat.exists_eq_add_of_le' hf
+  rw [execV_ret, h]
+
+theorem EvIn.loop_exit {env : Env} {c : Expr} {body post : Stmt} {v : Val}
+    (hc : evalV G env c = some v) (hd : asBool v = some false) :
+    EvIn P G X 1 env (.loop c body post) env .norm := by
+  intro f hf; obtain ⟨f, rfl⟩ := Nat.exists_eq_add_of_le' hf
+  rw [execV_loop, hc]
+  simp only [hd]
+
+/-- one round: the condition holds, the body ends normally (or with `continue`), the post statement
+    ends normally, then the rest of the loop -/
+theorem EvIn.loop_round {Fb Fp Fl : Nat} {env env1 env2 env3 : Env} {c : Expr} {body post : Stmt}
+    {v : Val} {cb ctl : Ctl}
+    (hc : evalV G env c = some v) (hd : asBool v = some true)
+    (hb : EvIn P G X Fb env body env1 cb) (hcb : cb = .norm ∨ cb = .cont)
+    (hp : EvIn P G X Fp env1 post env2 .norm)
+    (hl : EvIn P G X Fl env2 (.loop c body post) env3 ctl) :
+    EvIn P G X (Fb + Fp + Fl + 1) env (.loop c body post) env3 ctl := by
+  intro f hf; obtain ⟨f, rfl⟩ := Nat.exists_eq_add_of_le' (by omega : 1 ≤ f)
+  rw [execV_loop, hc]
+  simp only [hd]
+  rw [hb f (by omega)]
+  rcases hcb with rfl | rfl <;> simp only <;> rw [hp f (by omega)] <;> exact hl f (by omega)
+
+/-- the body leaves the loop: `break`, `return`, `panic` -/
+theorem EvIn.loop_leave {Fb : Nat} {env env1 : Env} {c : Expr} {body post : Stmt} {v : Val} {cb : Ctl}
+    (hc : evalV G env c = some v) (hd : asBool v = some true)
+    (hb : EvIn P G X Fb env body env1 cb) (hcb : cb ≠ .norm ∧ cb ≠ .cont ∧ cb ≠ .stuck) :
+    EvIn P G X (Fb + 1) env (.loop c body post) env1 (match cb with | .brk => .norm | c => c) := by
+  intro f hf; obtain ⟨f, rfl⟩ := Nat.exists_eq_add_of_le' (by omega : 1 ≤ f)
+  rw [execV_loop, hc]
+  simp only [hd]
+  rw [hb f (by omega)]
+  obtain ⟨h1, h2, h3⟩ := hcb
+  cases cb <;> first | rfl | exact absurd rfl h1 | exact absurd rfl h2 | exact absurd rfl h3
+
+theorem EvIn.call {F : Nat} {env envc env1 : Env} {lhs : List Nat} {g : Nat} {args : List Expr}
+    {vs rs : List Val} {fn : Fn}
+    (ha : evalVs G env args = some vs) (hg : P[g]? = some fn) (hs : fn.stub = false)
+    (hn : vs.length = fn.nparams)
+    (hb : EvIn P G X F (Env.ofList vs) fn.body envc (.ret rs)) (hset : env.setMany lhs rs = some env1) :
+    EvIn P G X (F + 1) env (.call lhs g args) env1 .norm := by
+  intro f hf; obtain ⟨f, rfl⟩ := Nat.exists_eq_add_of_le' (by omega : 1 ≤ f)
+  rw [execV_call, ha, hg]
+  simp only [hs, hn, bne_self_eq_false, Bool.or_self, Bool.false_eq_true, ↓reduceIte]
+  rw [hb f (by omega)]
+  simp [hset]
+
+/-! ### stuck runs -/
+
+theorem Stuck.assign {env : Env} {x : Nat} {p : List PathE} {e : Expr} (he : evalV G env e = none) :
+    Stuck P G X env (.assign x p e) := by
+  intro f
+  cases f with
+  | zero => rfl
+  | succ f => rw [execV_assign, he]
+
+theorem Stuck.seq_left {env : Env} {a b : Stmt} (ha : Stuck P G X env a) : Stuck P G X env (.seq a b) := by
+  intro f
+  cases f with
+  | zero => rfl
+  | succ f =>
+    rw [execV_seq]
+    have := ha f
+    rcases h : execV P G X f env a with ⟨e1, c1⟩
+    rw [h] at this
+    simp only at this
+    subst this
+    rfl
+
+theorem Stuck.seq_right {F : Nat} {env env1 : Env} {a b : Stmt}
+    (ha : EvIn P G X F env a env1 .norm) (hb : Stuck P G X env1 b) : Stuck P G X env (.seq a b) := by
+  intro f
+  cases f with
+  | zero => rfl
+  | succ f =>
+    rw [execV_seq]
+    rcases ha.below f with hs | he
+    · rcases h : execV P G X f env a with ⟨e1, c1⟩
+      rw [h] at hs
+      simp only at hs
+      subst hs
+      rfl
+    · rw [he]
+      exact hb f
+
+theorem Stuck.ite {env : Env} {c : Expr} {a b : Stmt} {v : Val} {d : Bool}
+    (hc : evalV G env c = some v) (hd : asBool v = some d)
+    (h : Stuck P G X env (if d then a else b)) : Stuck P G X env (.ite c a b) := by
+  intro f
+  cases f with
+  | zero => rfl
+  | succ f =>
+    rw [execV_ite, hc]
+    simp only [hd]
+    exact h f
+
+theorem Stuck.cond {env : Env} {c : Expr} {a b : Stmt} (hc : evalV G env c = none) :
+    Stuck P G X env (.ite c a b) := by
+  intro f
+  cases f with
+  | zero => rfl
+  | succ f => rw [execV_ite, hc]
+
+theorem Stuck.ret {env : Env} {es : List Expr} (h : evalVs G env es = none) : Stuck P G X env (.ret es) := by
+  intro f
+  cases f with
+  | zero => rfl
+  | succ f => rw [execV_ret, h]
+
+theorem Stuck.loop_body {env : Env} {c : Expr} {body post : Stmt} {v : Val}
+    (hc : evalV G env c = some v) (hd : asBool v = some true) (hb : Stuck P G X env body) :
+    Stuck P G X env (.loop c body post) := by
+  intro f
+  cases f with
+  | zero => rfl
+  | succ f =>
+    rw [execV_loop, hc]
+    simp only [hd]
+    have := hb f
+    rcases h : execV P G X f env body with ⟨e1, c1⟩
+    rw [h] at this
+    simp only at this
+    subst this
+    rfl
+
+/-- a round completes and the rest of the loop is stuck -/
+theorem Stuck.loop_round {Fb Fp : Nat} {env env1 env2 : Env} {c : Expr} {body post : Stmt}
+    {v : Val} {cb : Ctl}
+    (hc : evalV G env c = some v) (hd : asBool v = some true)
+    (hb : EvIn P G X Fb env body env1 cb) (hcb : cb = .norm ∨ cb = .cont)
+    (hp : EvIn P G X Fp env1 post env2 .norm)
+    (hl : Stuck P G X env2 (.loop c body post)) : Stuck P G X env (.loop c body post) := by
+  intro f
+  cases f with
+  | zero => rfl
+  | succ f =>
+    rw [execV_loop, hc]
+    simp only [hd]
+    rcases hb.below f with hs | he
+    · rcases h : execV P G X f env body with ⟨e1, c1⟩
+      rw [h] at hs
+      simp only at hs
+      subst hs
+      rfl
+    · rw [he]
+      rcases hp.below f with hs | hpe
+      · rcases h : execV P G X f env1 post with ⟨e2, c2⟩
+        rw [h] at hs
+        simp only at hs
+        subst hs
+        rcases hcb with rfl | rfl <;> simp only [h]
+      · rcases hcb with rfl | rfl <;> simp only [hpe] <;> exact hl f
+
+theorem Stuck.call {env : Env} {lhs : List Nat} {g : Nat} {args : List Expr} {vs : List Val} {fn : Fn}
+    (ha : evalVs G env args = some vs) (hg : P[g]? = some fn)
+    (hb : Stuck P G X (Env.ofList vs) fn.body) : Stuck P G X env (.call lhs g args) := by
+  intro f
+  cases f with
+  | zero => rfl
+  | succ f =>
+    rw [execV_call, ha, hg]
+    simp only
+    split
+    · rfl
+    · rw [hb f]
+
+/-! ### from statements to runs -/
+
+theorem runV_of_EvIn {F : Nat} {g : Nat} {args : List Val} {fn : Fn} {env' : Env} {c : Ctl}
+    (hg : P[g]? = some fn) (hs : fn.stub = false) (hn : args.length = fn.nparams)
+    (h : EvIn P G X F (Env.ofList args) fn.body env' c) :
+    ∀ f, F ≤ f → runV P G X f g args = c := by
+  intro f hf
+  rw [runV_eq, hg]
+  simp only [hs, hn, bne_self_eq_false, Bool.or_self, Bool.false_eq_true, ↓reduceIte]
+  rw [h f hf]
+
+theorem runV_of_Stuck {g : Nat} {args : List Val} {fn : Fn}
+    (hg : P[g]? = some fn) (h : Stuck P G X (Env.ofList args) fn.body) :
+    ∀ f, runV P G X f g args = .stuck := by
+  intro f
+  rw [runV_eq, hg]
+  simp only
+  split
+  · rfl
+  · exact h f
+
+end Judgements
+
+/-! ## Small facts for symbolic execution -/
+
+@[simp] theorem Env.set_same (env : Env) (x : Nat) (v : Val) : (env.set x v) x = v := by simp [Env.set]
+theorem Env.set_other (env : Env) {x y : Nat} (v : Val) (h : y ≠ x) : (env.set x v) y = env y := by
+  simp [Env.set, h]
+
+theorem updPath_nil (o v : Val) : updPath o [] v = some v := by simp [updPath]
+
+theorem getIdx_ofNat (l : List Val) (k : Nat) : getIdx l (k : Int) = l[k]? := by
+  have h : ¬ ((k : Int) < 0) := by omega
+  simp [getIdx, h]
+
+theorem getIdx_neg (l : List Val) {n : Int} (h : n < 0) : getIdx l n = none := by
+  simp [getIdx, h]
+
 end SMGo.Model.CTIR
